@@ -145,8 +145,10 @@ func C01(t *testing.T, ch *choice.Source, opt harness.Options, env *Env) harness
 	inputSeed := int64(ch.Intn(1<<30, "inputseed"))
 	// address-space position: in some emulation runs the workload's process has allocated nearly 4 GiB
 	// before (on a spare GPU that takes no part in the workload), so that the workload's buffers lie
-	// around a 4 GiB line of its virtual address space (64-bit pointer arithmetic must carry)
-	if !c.Timing && !c.UnifiedMem && c.GPUs < 4 && ch.Bool(1, 6, "vaddr.shift") {
+	// around a 4 GiB line of its virtual address space (64-bit pointer arithmetic must carry).
+	// gcn3 binaries only: with cdna3 binaries the unmodified tree already fails there (excluded
+	// configuration, see benchtable.go's header and DESIGN 15.8; replay kept under /verif/findings)
+	if !c.Timing && !c.UnifiedMem && c.GPUs < 4 && c.Arch == "gcn3" && ch.Bool(1, 4, "vaddr.shift") {
 		c.VAddrShiftBelow = 1 + ch.Intn(96, "vaddr.below")
 		spec.NumGPUs = c.GPUs + 1
 		probes["buffers_around_4gib_line"] = 1
